@@ -118,75 +118,21 @@ theorem evsOk_of_static {evs : List Ev} (h : ∀ e ∈ evs, StaticOk e.eff) (fs 
 
 def WBOk (w : WBIn) : Prop := isBlockName w.h = true ∧ (w.rend = .eof → hash w.chunks.flatten = w.h)
 
-theorem appends_static (h sfx : Name) (cs : List Bytes) : ∀ e ∈ appends (tmpPath h sfx) cs, StaticOk e.eff := by
-  intro e he
-  obtain ⟨c, _, rfl⟩ := List.mem_map.1 he
-  exact owner_tmp h sfx
-
-theorem wbPre_static (w : WBIn) : ∀ e ∈ wbPre w, StaticOk e.eff := by
-  intro e he
-  simp only [wbPre, List.mem_cons, List.not_mem_nil, or_false] at he
-  rcases he with rfl | rfl | rfl
-  · trivial
-  · exact owner_tmp _ _
-  · trivial
+theorem static_of_local {p : Path} (hp : owner p.name = none) {s : Step} (h : LocalAt p s) : StaticOk s := by
+  cases s <;> simp_all [LocalAt, StaticOk]
 
 theorem wb_evsOk (fs : FS) (w : WBIn) (hw : WBOk hash w) : EvsOk hash fs (writeBlockEvs w).1 := by
-  have hpre := wbPre_static w
-  have happ := appends_static w.h w.sfx
-  cases hf : w.fail <;> cases hr : w.rend <;> simp only [writeBlockEvs, hf, hr]
-  case none.eof =>
-    have : (wbPre w ++ appends (tmpPath w.h w.sfx) w.chunks ++
-        [⟨wbPt 5, .nop⟩, ⟨wbPt 7, .chtimes (tmpPath w.h w.sfx) w.now⟩, ⟨wbPt 9, .rename (tmpPath w.h w.sfx) (blockPath w.h)⟩] : List Ev)
-        = (wbPre w ++ appends (tmpPath w.h w.sfx) w.chunks ++
-            [⟨wbPt 5, .nop⟩, ⟨wbPt 7, .chtimes (tmpPath w.h w.sfx) w.now⟩]) ++
-          [⟨wbPt 9, .rename (tmpPath w.h w.sfx) (blockPath w.h)⟩] := by simp
-    rw [this, evsOk_append]
-    refine ⟨evsOk_of_static hash ?_ fs, ?_, trivial⟩
-    · intro e he
-      simp only [List.mem_append, List.mem_cons, List.not_mem_nil, or_false] at he
-      rcases he with (he | he) | rfl | rfl
-      · exact hpre e he
-      · exact happ _ e he
-      · trivial
-      · trivial
-    · intro f hf' h hh
-      rw [get_tmp_after_copy fs w] at hf'
-      cases hf'
-      simp only [blockPath, owner_block hw.1, Option.some.injEq] at hh
-      subst hh
-      exact hw.2 hr
-  all_goals
-    apply evsOk_of_static
-    intro e he
-    simp only [List.mem_append, List.mem_cons, List.not_mem_nil, or_false] at he
-    first
-      | (rcases he with rfl; trivial)
-      | (rcases he with rfl | rfl <;> trivial)
-      | (rcases he with (he | he) | rfl | rfl
-         · exact hpre e he
-         · exact happ _ e he
-         · trivial
-         · trivial)
-      | (rcases he with (he | he) | rfl | rfl | rfl
-         · exact hpre e he
-         · exact happ _ e he
-         · trivial
-         · trivial
-         · trivial)
-      | (rcases he with (he | he) | rfl | rfl | rfl | rfl
-         · exact hpre e he
-         · exact happ _ e he
-         · trivial
-         · trivial
-         · trivial
-         · trivial)
-      | (rcases he with (he | he) | rfl | rfl | rfl
-         · exact hpre e he
-         · exact happ _ e he
-         · exact owner_tmp _ _
-         · trivial
-         · trivial)
+  have hown : owner (tmpPath w.h w.sfx).name = none := owner_tmp w.h w.sfx
+  rcases wb_shape w with ⟨_, hl⟩ | ⟨_, hr, _, he⟩
+  · exact evsOk_of_static hash (fun e he => static_of_local hown (hl e he)) fs
+  · rw [he, evsOk_append]
+    refine ⟨evsOk_of_static hash (fun e he' => static_of_local hown (wbBody_local w e he')) fs, ?_, trivial⟩
+    intro f hf' h hh
+    rw [get_tmp_after_body fs w] at hf'
+    cases hf'
+    simp only [blockPath, owner_block hw.1, Option.some.injEq] at hh
+    subst hh
+    exact hw.2 hr
 
 theorem attempts_evsOk (ws : List WBIn) (hws : ∀ w ∈ ws, WBOk hash w) :
     ∀ fs, EvsOk hash fs (attemptsEvs ws).1 := by
@@ -237,13 +183,13 @@ theorem trash_evsOk {fs : FS} (hi : Intact hash fs) (cfg : Cfg) {h : Name} (hb :
         subst hh
         exact hi _ (get_some_mem hf) h (owner_block hb)
 
-theorem untrash_evsOk {fs : FS} (hi : Intact hash fs) {h : Name} (hb : isBlockName h = true) :
-    EvsOk hash fs (untrashEvs fs h).1 := by
+theorem untrash_evsOk {fs : FS} (hi : Intact hash fs) {h : Name} (hb : isBlockName h = true) (now : Nat) :
+    EvsOk hash fs (untrashEvs fs h now).1 := by
   unfold untrashEvs
   split
   · exact ⟨trivial, trivial⟩
   · rename_i n hn
-    refine ⟨trivial, ?_, trivial⟩
+    refine ⟨trivial, ?_, trivial, trivial⟩
     intro f hf h' hh
     simp only [Step.apply] at hf
     have hpre := List.find?_some hn
@@ -337,9 +283,9 @@ theorem op_evsOk {fs : FS} (hi : Intact hash fs) (op : Op) (hv : op.valid hash) 
     simp only [Op.evs]; split
     · rename_i hb; exact trash_evsOk hash hi cfg hb
     · trivial
-  | untrash h =>
+  | untrash h now =>
     simp only [Op.evs]; split
-    · rename_i hb; exact untrash_evsOk hash hi hb
+    · rename_i hb; exact untrash_evsOk hash hi hb now
     · trivial
   | emptyTrash now => exact evsOk_of_static hash (emptyTrash_static fs now) fs
   | env s => exact ⟨env_stepOk hash hi hv, trivial⟩
